@@ -73,13 +73,44 @@ def tests_trace(res, work, pid):
     if rc != 0 or not os.path.exists(trace):
         raise ToolError("the iwes test-suite did not run with the hooks compiled in:\n" + out[-3000:])
     lines = [json.loads(l) for l in open(trace) if l.strip()]
-    cases, cur = [], None
+    outl, ncases = convert_tests_trace(lines)
+    conv = os.path.join(work, "tests.events.0.ndjson")
+    with open(conv, "w") as f:
+        f.write("\n".join(json.dumps(x) for x in outl) + "\n")
+    validate_impl_trace(res, work, conv, "tests", 0, pid, cfg="Trace_Router_tests.cfg")
+    res.cov["repo_tests_servers"] = ncases
+    res.cov["repo_tests_hook_events"] = len(lines)
+
+
+def convert_tests_trace(lines):
+    """hook lines of the test run -> one case per server in the vocabulary of Trace_Router"""
+    # One file for all servers of the (sequential, --test-threads=1) test run, without a server identity on the lines: a test drops
+    # its server without joining it, so the tail of server k (its LoopExit, the last gates of its workers) can be written after
+    # the RouterNew of server k+1.  Server k+1 cannot exit before server k did, and it cannot reach a gate of a request it has
+    # not taken, so: a LoopExit while the previous server has none yet, and a gate of a request that the current server has not
+    # taken but the previous one has not finished, belong to the previous server.
+    cases, cur, prev = [], None, None
+    taken, prev_open, prev_exited = set(), set(), True
     for e in lines:
         if e["ev"] == "RouterNew":
-            cur = []
+            prev, cur = cur, []
             cases.append(cur)
+            prev_exited = prev is None or any(x["ev"] == "LoopExit" for x in prev)
+            prev_open = set() if prev is None else ({x["id"] for x in prev if x["ev"] == "ReqTaken"} -
+                                                    {x["id"] for x in prev if x["ev"] == "Gate" and x["at"] in ("WReturn", "WPanic")})
+            taken = set()
         elif cur is not None:
-            cur.append(e)
+            if e["ev"] == "LoopExit" and not prev_exited:
+                prev.append(e)
+                prev_exited = True
+            elif e["ev"] == "Gate" and e["id"] not in taken and e["id"] in prev_open:
+                prev.append(e)
+                if e["at"] in ("WReturn", "WPanic"):
+                    prev_open.discard(e["id"])
+            else:
+                if e["ev"] == "ReqTaken":
+                    taken.add(e["id"])
+                cur.append(e)
     outl = []
     for ci, evs in enumerate(cases):
         outl.append({"ev": "Reset", "case": ci})
@@ -113,12 +144,7 @@ def tests_trace(res, work, pid):
             else:
                 outl.append(e)
     outl.append({"ev": "End"})
-    conv = os.path.join(work, "tests.events.0.ndjson")
-    with open(conv, "w") as f:
-        f.write("\n".join(json.dumps(x) for x in outl) + "\n")
-    validate_impl_trace(res, work, conv, "tests", 0, pid, cfg="Trace_Router_tests.cfg")
-    res.cov["repo_tests_servers"] = len(cases)
-    res.cov["repo_tests_hook_events"] = len(lines)
+    return outl, len(cases)
 
 
 def validate_impl_trace(res, work, path, name, i, pid, cfg="Trace_Router.cfg"):
@@ -143,8 +169,9 @@ def validate_impl_trace(res, work, path, name, i, pid, cfg="Trace_Router.cfg"):
             raise ToolError("Trace_Router failed on %s:\n%s" % (tr, r["out"][-3000:]))
         consumed = rej[0]["consumed"] if rej else r["distinct"] - 1
         at = start + consumed                      # index of the line that no action of Router.tla explains
-        first = max(j for j in range(at + 1) if j < len(lines) and '"ev":"Reset"' in lines[j]) if any('"ev":"Reset"' in x for x in lines[:at + 1]) else 0
-        nxt = next((j for j in range(at + 1, len(lines)) if '"ev":"Reset"' in lines[j]), len(lines))
+        is_reset = lambda x: '"ev":"Reset"' in x.replace('": "', '":"')
+        first = max(j for j in range(at + 1) if j < len(lines) and is_reset(lines[j])) if any(is_reset(x) for x in lines[:at + 1]) else 0
+        nxt = next((j for j in range(at + 1, len(lines)) if is_reset(lines[j])), len(lines))
         case = json.loads(lines[first]).get("case") if first < len(lines) else None
         what = ("Router.tla invariant violated in the recorded trace" if inv and not rej else
                 "recorded line is not a step of Router.tla: %s" % json.dumps(rej[0]["line"]))
